@@ -5,9 +5,10 @@
 # the demonstration fails with the patch.  Writes /var/tmp/confirm_<id>_<n>.log
 # and prints one summary line.  The worktree is removed afterwards.
 id=$1; n=$2
-raw=/verif/seeded/$id-$n
-wt=/tmp/cw_${id}_$n
-log=/var/tmp/confirm_${id}_$n.log
+name=${3:-$id-$n}
+raw=/verif/seeded/$name
+wt=/tmp/cw_${name}
+log=/var/tmp/confirm_${name}.log
 export GOFLAGS=-mod=mod GOPROXY=off
 patch=$raw/patch.diff
 git -C /repo worktree remove --force $wt >/dev/null 2>&1
@@ -57,4 +58,4 @@ t_same=$(grep -q '^=== tests' $log && (diff -q /var/tmp/confirm_${id}_${n}_tp2.t
 cd /
 git -C /repo worktree remove --force $wt >/dev/null 2>&1
 rm -rf $wt /var/tmp/confirm_${id}_${n}_t*.txt
-echo "$id/$n patch=$(basename $patch) apply=$a_rc build=$b_rc tests=$t_same demo_pristine=$p_rc demo_patched=$q_rc"
+echo "$name patch=$(basename $patch) apply=$a_rc build=$b_rc tests=$t_same demo_pristine=$p_rc demo_patched=$q_rc"
